@@ -486,6 +486,11 @@ func cmdBaseline(args []string) int {
 		}
 		sort.Strings(cov)
 		old.Covers[p] = cov
+		for n, o := range pr.Obs {
+			if strings.Contains(n, "/cover:site:") && !o.OK {
+				fmt.Printf("  [%s] UNREACHABLE return site under the assumed contracts (dead code, or vacuous proofs beyond it — triage): %s\n", p, n)
+			}
+		}
 		fmt.Printf("%s: %d obligations admitted, %d not, %d engine errors\n", p, len(entries), fail, len(pr.Errors))
 		for _, er := range pr.Errors {
 			fmt.Println("   ERROR:", er)
